@@ -104,7 +104,7 @@ def instance(schema, a, B):
         return app('=', C(sub(x, y)), add(mul(C(x), C(y)), mul(S(x), S(y))))
     if schema == 'sin_half':     # sin(x) = 2 sin(x/2) cos(x/2), cos(x) = cos^2 - sin^2 of x/2 ; a = (x, half term)
         x, h = a
-        return land(app('=', S(x), mul('2.0', mul(S(h), C(h)))), app('=', C(x), sub(mul(C(h), C(h)), mul(S(h), S(h)))))
+        return implies(app('=', mul('2.0', h), x), land(app('=', S(x), mul('2.0', mul(S(h), C(h)))), app('=', C(x), sub(mul(C(h), C(h)), mul(S(h), S(h))))))
     if schema == 'trig_zero':
         return land(app('=', S('0.0'), '0.0'), app('=', C('0.0'), '1.0'))
     if schema == 'trig_half_pi':
